@@ -33,7 +33,8 @@ CONSTANTS
   ExtraInts,    \* further candidate integers
   Canon,        \* function: element id (integer) -> its decimal spelling
   SimMode,      \* TRUE: only a random sample of schemes (Sample per identifier kind)
-  Sample
+  Sample,
+  Pinned        \* schemes [alias, svid, eid, ins] that every sample contains
 
 VARIABLES alias, svid, eid,
           ins       \* the server-inserted items of an MR dimension ({} = no view insertions)
@@ -48,10 +49,11 @@ InsSets == (SUBSET Items) \ {Items}
 
 Init ==
   IF SimMode
-  THEN /\ alias \in RandomSubset(Sample, Schemes(AliasPool))
-       /\ svid \in RandomSubset(Sample, Schemes(SvidPool))
-       /\ eid \in RandomSubset(Sample, Schemes(EidPool))
-       /\ ins \in RandomSubset(2, InsSets \ {{}}) \cup {{}}
+  THEN \/ /\ alias \in RandomSubset(Sample, Schemes(AliasPool))
+          /\ svid \in RandomSubset(Sample, Schemes(SvidPool))
+          /\ eid \in RandomSubset(Sample, Schemes(EidPool))
+          /\ ins \in RandomSubset(2, InsSets \ {{}}) \cup {{}}
+       \/ \E s \in Pinned : alias = s.alias /\ svid = s.svid /\ eid = s.eid /\ ins = s.ins
   ELSE /\ alias \in Schemes(AliasPool)
        /\ svid \in Schemes(SvidPool)
        /\ eid \in Schemes(EidPool)
